@@ -544,6 +544,9 @@ End Loop.
 
 Definition path_fuel (g : graph) : nat := length (g_from g) * length (g_from g) + 2.
 
+Lemma init_eq : forall o add, init o add = {| p_elems := [(o, add)]; p_cost := 0 |}.
+Proof. reflexivity. Qed.
+
 
 (* the flags the search attaches to the elements after the origin *)
 Definition flags_ok (rv : revision) (d : db) (conds : list cond) (add : bool) (els : list (Z * bool)) : Prop :=
@@ -809,6 +812,16 @@ Section NoFuel.
       apply andb_prop in Ho. destruct Ho as [Ho _]. apply andb_prop in Ho. destruct Ho as [Ho _].
       apply andb_true_intro. split; [lia | reflexivity].
     - unfold mu. cbn [length]. pose proof (wsum_bound []) as H. fold g. nia.
+  Qed.
+
+  Theorem path_loop_init_no_fuel : forall o add, node_id g o = true ->
+    path_loop rv d conds dst (length (g_from g) * length (g_from g) + 2)
+              [ {| p_elems := [(o, add)]; p_cost := 0 |} ] [] <> None.
+  Proof.
+    intros o add Ho. apply path_loop_fuel.
+    - intros P [HP|[]]. subst P. unfold last_index. cbn [p_elems rev app].
+      pose proof (node_id_bounds _ _ Ho) as (Hpos & _). rewrite Z.abs_eq by lia. exact Ho.
+    - unfold mu. cbn [length]. pose proof (wsum_bound []) as H. nia.
   Qed.
 
   (* for ANY condition list (also distance-dependent ones) a non-empty internal result is a
